@@ -127,6 +127,9 @@ type Sim struct {
 
 	held [256]heldLock // known-held mutexes
 	onces [64]uintptr  // sync.Once currently running
+	mainDone    bool
+	mainDoneSeq uint64    // step count at which the driver was first seen finished
+	mainDoneAt  time.Time // bubble time of that moment
 	conds map[uintptr][]chan struct{} // emulated sync.Cond wait lists
 
 	ctlWake chan struct{}
@@ -604,6 +607,22 @@ func (s *Sim) controller() {
 			s.simElapsed = s.vnowLocked().Sub(s.start)
 			iunlock(&s.mu)
 			return
+		}
+		// the driver (worker "0") has returned: whatever still runs was left behind by the code
+		// under test. Workers that are blocked for good end the run through the quiescence path
+		// below; a leftover periodic goroutine (ticker) would keep time moving until the step
+		// limit, so after a grace period the run is ended and the leftovers are reported.
+		if s.nworkers > 0 && s.workers[0].state == stDone {
+			if !s.mainDone {
+				s.mainDone = true
+				s.mainDoneSeq = s.seq
+				s.mainDoneAt = time.Now()
+			} else if s.seq-s.mainDoneSeq > 20000 || time.Since(s.mainDoneAt) > 10000*time.Hour {
+				s.aborted = true
+				s.simElapsed = s.vnowLocked().Sub(s.start)
+				iunlock(&s.mu)
+				return
+			}
 		}
 		if int(s.seq) >= s.cfg.MaxSteps {
 			s.stepLim = true
